@@ -200,7 +200,7 @@ func raceC18(seed uint64, rounds int) string {
 			calls++
 			c := calls
 			mu.Unlock()
-			if c%5 == 3 {
+			if c%5 == 3 || (c == 1 && round%3 == 2) { // every third round the FIRST build fails: the renderer starts without a set
 				return nil, errBuild
 			}
 			m := html.NewTplManager()
@@ -210,9 +210,10 @@ func raceC18(seed uint64, rounds int) string {
 			return m, nil
 		}
 		rd, err := tpl.NewHTMLRender(builder, tpl.WithHotReload(hot))
-		if err != nil {
+		if rd == nil {
 			continue
 		}
+		_ = err // a renderer whose first build failed is kept: the first successful Reload then races the requests
 		var wg sync.WaitGroup
 		n := 4 + r.Intn(12)
 		bad := make([]string, n)
@@ -225,6 +226,9 @@ func raceC18(seed uint64, rounds int) string {
 					if g == 0 {
 						rd.Reload(ctx)
 						continue
+					}
+					if k%4 == 3 {
+						rd.GetTemplate(ctx, "t")
 					}
 					w := &respWriter{h: map[string][]string{}}
 					e := rd.Instance(ctx, "t", nil).Render(w)
